@@ -1,5 +1,5 @@
 SOURCE_COMMITS = []  # no guarded hook commits: instrumentation is harness-side only
-FIX_COMMITS = ["72224cf", "5e98ecd", "2300819", "45660fa", "ac83a8e"]
+FIX_COMMITS = ["72224cf", "5e98ecd", "2300819", "45660fa", "ac83a8e", "f5d3225"]
 NOTES = "Runtime monitoring of the real repid code; see DESIGN.md. Verdicts are 'held on the executions produced', never proofs."
 NOT_APPLICABLE = {}
 CHECKS = {
@@ -16,6 +16,20 @@ CHECKS = {
         "text": "A crossed table of ~1400 cells (actor outcome incl. 5 exception types, timeout, conversion failure, dependency failure, six eager responses x result/exception/callback variants; retries 0/1/3; attempt first/middle/last; recurring or not; result storing on/off) is executed through real Workers (6-24 cells concurrently, tasks_limit 1/3/1000, both converters, three brokers); every delivery is paired with the terminal broker calls that follow it and judged against the ladder (exactly one call, the right one, with the right retry/reschedule parameters); sentinel jobs prove the worker keeps processing.",
         "note": "Virtual time; deliveries cut short by the final stop request are not judged; cron recurrence not reachable (croniter absent).",
         "ref": "DESIGN.md 5/C02",
+    },
+    "C04": {
+        "level": "exploration",
+        "technique": "runtime monitoring: per-chain monitor over recorded actor starts, requeue parameters and final broker state, on a virtual clock",
+        "text": "Every failure pattern over the attempts (exception/timeout/success) for N in 0..3 (sampled for N=7), five retry policies, with/without recurrence, ladder and eager retry/force_retry modes, on the three brokers: the monitor counts executions per scheduling (N+1 or first success), follows the attempt counter 0,1,2.. (never above N unless forced), compares each retry's due time with failure time + policy(k) to 20 us, checks that no retry starts more than 1 ms before its due time, and the final place (gone / dead / rescheduled with counter 0).",
+        "note": "Virtual time; fakes for Redis/RabbitMQ; RabbitMQ retries parked behind a longer delay at the horizon are counted, not judged (lateness is C05's).",
+        "ref": "DESIGN.md 5/C04",
+    },
+    "C05": {
+        "level": "exploration",
+        "technique": "runtime monitoring: delivery-instant oracle on a virtual wall clock (libc interposition), boundary grid of due times x clock phases x consumer phases",
+        "text": "Single delayed messages over a grid of due offsets (past .. +30 d), 12 positions of now inside the second, 6 consumer phases and three ways of creating the delay, plus queues with several non-monotone due times and category-visibility probes, on the three brokers: a delivery more than 1 ms before T is a violation, so is no delivery within 10 s of virtual time after max(T, consumer start), so is visibility through a NORMAL/DEAD consumer before T.",
+        "note": "Virtual time; fakes; RabbitMQ head-of-queue TTL expiry (documented server rule R2) makes short delays behind long ones late: recorded as a known finding, keyed by the multi-message non-monotone pattern.",
+        "ref": "DESIGN.md 5/C05",
     },
     "C19": {
         "level": "exploration",
